@@ -8,16 +8,18 @@ futures carry the program of their sub-builder); `startStream ooo done0 prog` re
 (any `List (List FId)`: every permutation, grouping and interleaving with polls), `Run.drain` keeps polling.
 `itemsOf` concatenates the yielded strings.  `docOps` / `oooDocOps` / `viewDoc` are the fully resolved documents.
 
-Status
-* in-order streaming: **proved in full** for every program without `ErrorBoundary` sub-builders
-  (`C07_in_order`, `C07_in_order_total`, `C07_in_order_views`, `C07_in_order_prefix`, `C07_no_dup_no_drop`);
-  the full statement (with `Op.sub`) is refuted (`C07_in_order_full_false`, F-C07-2).
+Status (after the repairs fix-c07-2 … fix-c07-5 in /repo; the pre-repair code is kept as `Builder.appendOld`,
+`inPlaceBufOld`, `compileOld` with regression witnesses at the bottom)
+* in-order streaming: **proved in full**, for every in-order program including `ErrorBoundary` sub-builders
+  (`Op.sub`) (`C07_in_order`, `C07_in_order_total`, `C07_in_order_views`, `C07_in_order_prefix`, `C07_no_dup_no_drop`).
 * termination: **proved for all programs in both modes** (`C07_terminates`).
-* view closure: **proved** (`C07_views_wellformed`): views outside the classes F-C07-2/3/4 compile to in-order
-  programs / to `OooWf` out-of-order programs whose document is the resolved view.
+* view closure: **proved for every view of the grammar** (`C07_views_wellformed`): in-order programs / `OooWf`
+  out-of-order programs whose document is the resolved view; marker ids are distinct paths (`C07_marker_ids`,
+  now also across `ErrorBoundary` sub-builders).
 * out-of-order streaming: the statement is `C07_out_of_order_stmt` — **OPEN** (not proved; validated by the
   correspondence run and by the kernel-evaluated instances below); the same for `C07_fallback_until_ready_stmt`.
-* findings: `C07_eb_inorder_witness`, `C07_eb_ooo_witness`, `C07_nested_suspend_witness`, `C07_none_inline_witness`;
+* repaired findings, regression witnesses: `C07_eb_inorder_witness` (F-C07-2), `C07_eb_ooo_witness` (F-C07-3),
+  `C07_nested_suspend_witness` (F-C07-4), `C07_none_inline_witness` (F-C07-5);
   API-misuse only: `C07_api_misuse_witness` (F-C07-1, not reachable from views: `C07_views_wellformed` gives
   `OooWf`, whose resolved lists are `[ooo…, sync]`).
 -/
@@ -25,7 +27,8 @@ namespace Leptos.Stream
 
 /-! ## in-order streaming -/
 
-/-- **C07_in_order.** Every in-order program, every completion schedule: what has been yielded so far is a prefix
+/-- **C07_in_order.** Every in-order program (`inOrdOps`: `push_sync`, `push_async`, `next_id`, `ErrorBoundary`
+    sub-builders, `now_or_never` branches that render the same document), every completion schedule: what has been yielded so far is a prefix
     of the resolved document; once the stream has ended it is the whole document; the stream never panics and never
     runs out of fuel. -/
 theorem C07_in_order (prog : List Op) (h : inOrdOps prog = true) (done0 : List FId) (sched : List (List FId)) :
@@ -98,21 +101,23 @@ theorem C07_no_dup_no_drop (ooo : Bool) (prog : List Op) (done0 : List FId) (sch
 
 /-! ## views -/
 
-/-- **C07_views_wellformed.** Every view outside the classes F-C07-2/3/4 (`viewOk`: no `ErrorBoundary`, no `Suspend`
-    in the output of a `Suspend` under a `Suspense`) renders, by the rules of `to_html_async_with_buf`, to an in-order
-    program in in-order mode and to an `OooWf` program in out-of-order mode (only `next_id; push_fallback;
-    push_async_out_of_order(Some)` triples: every resolved out-of-order list is `[ooo…, sync]`, no `push_async`,
-    every marker id preceded by its own `next_id`), and in both modes the program's document is the resolved view. -/
-theorem C07_views_wellformed (v : View) (h : viewOk .top v = true) :
+/-- **C07_views_wellformed.** Every view of the grammar (text, elements, tuples, `Vec`, `Suspend`, `Suspense`,
+    `Transition`, `Await`, `ErrorBoundary`, nested to any depth) renders, by the rules of `to_html_async_with_buf`, to
+    an in-order program in in-order mode and to an `OooWf` program in out-of-order mode (only `next_id; push_fallback;
+    push_async_out_of_order(Some)` triples and `ErrorBoundary` sub-builders: every resolved out-of-order list is
+    `[ooo…, sync]`, no `push_async`, every marker id preceded by its own `next_id`), and in both modes the program's
+    document is the resolved view. -/
+theorem C07_views_wellformed (v : View) :
     (inOrdOps (compile false .top v) = true ∧ docOps (compile false .top v) = viewDoc v) ∧
     (OooWf (compile true .top v) ∧ oooDocOps (compile true .top v) = viewDoc v) :=
-  ⟨(compile_inOrd _).1 .top v (Nat.le_refl _) h, (compile_oooWf _).1 .top v (Nat.le_refl _) h⟩
+  ⟨(compile_inOrd _).1 .top v (Nat.le_refl _), (compile_oooWf _).1 .top v (Nat.le_refl _)⟩
 
 /-- **C07_marker_ids** (`next_id`, sub-builder `id.push(0)`): in an `OooWf` program the out-of-order chunks pushed
     into the top-level builder carry the pairwise distinct ids `[1], [2], …`, and the chunks a resolved out-of-order
     future with id `I` (marker text `piecesStr I`) pushes into its sub-builder carry pairwise distinct ids
     `I ++ [1], I ++ [2], …` — every marker id is a distinct path in the tree of boundaries, whatever the schedule.
-    (Refuted for programs with `ErrorBoundary` sub-builders: `C07_eb_ooo_witness`.) -/
+    An `ErrorBoundary` sub-builder continues its parent's numbering and hands the counter back (`exec_ids`, case `sub`;
+    before fix-c07-3 it did not: `C07_eb_ooo_witness`). -/
 theorem C07_marker_ids :
     (∀ (prog : List Op), OooWf prog → ∀ (done0 : List FId),
       (∀ i ∈ oooIds (startStream true done0 prog).b.chunks, ∃ j, 1 ≤ j ∧ i = some [j]) ∧
@@ -123,13 +128,13 @@ theorem C07_marker_ids :
       (oooIds (resolveOoo env p).chunks).Nodup) :=
   ⟨fun prog hw done0 => startStream_ids prog hw done0, fun env p I hI hw => resolveOoo_ids env p I hI hw⟩
 
-/-- **C07_in_order_views.** For every such view and every schedule the in-order stream concatenates to the
+/-- **C07_in_order_views.** For every view and every schedule the in-order stream concatenates to the
     synchronous render of the fully resolved view. -/
-theorem C07_in_order_views (v : View) (h : viewOk .top v = true) (done0 : List FId) (sched : List (List FId)) :
+theorem C07_in_order_views (v : View) (done0 : List FId) (sched : List (List FId)) :
     ((startStream false done0 (compile false .top v)).polls sched).out.getLast? = some Poll.done →
     itemsOf ((startStream false done0 (compile false .top v)).polls sched).out = viewDoc v := by
   intro hl
-  have hv := (C07_views_wellformed v h).1
+  have hv := (C07_views_wellformed v).1
   rw [← hv.2]
   exact (C07_in_order _ hv.1 done0 sched).2.1 hl
 
@@ -233,7 +238,7 @@ theorem C07_fallback_until_ready (env : Env) (fuel : Nat) (b : Builder) :
     · simp [pollNext, pollStep, yieldStep, hp, hc, ho, hr, hb]
     · simp [pollNext, pollStep, yieldStep, hp, hc, ho, hr, hb]
 
-/-! ## refutations and witnesses (kernel-evaluated) -/
+/-! ## regression witnesses (kernel-evaluated): the repaired code and what the code did before -/
 
 section witnesses
 set_option maxRecDepth 100000
@@ -241,63 +246,68 @@ set_option maxRecDepth 100000
 def fut1 : Fut := { deps := [1], tick := false }
 def fut2 : Fut := { deps := [2], tick := false }
 
-/-- F-C07-2. `<div><b>a</b><ErrorBoundary><b>b</b>{Suspend 1: <i>v</i>}<b>c</b></ErrorBoundary><b>d</b></div>`,
-    in-order: the boundary's first chunk overtakes `<div><b>a</b>`. -/
+/-- F-C07-2 (repaired by fix-c07-2). `<div><b>a</b><ErrorBoundary><b>b</b>{Suspend 1: <i>v</i>}<b>c</b></ErrorBoundary><b>d</b></div>`,
+    in-order. -/
 def ebView : View :=
   .seq [.raw "<div>".toList, .raw "<b>a</b>".toList,
         .eb [.raw "<b>b</b>".toList, .suspend 1 (.raw "<i>v</i>".toList), .raw "<b>c</b>".toList],
         .raw "<b>d</b>".toList, .raw "</div>".toList]
 
+/-- the parent builder holding `<div><b>a</b>` and the boundary's sub-builder at the moment of `append` -/
+def ebParent : Builder := { syncBuf := "<div><b>a</b>".toList }
+def ebChild : Builder :=
+  { chunks := [Chunk.sync "<b>b</b>".toList, Chunk.async { fut := fut1, born := 0, id := none, body := [Op.sync "<i>v</i>".toList] }],
+    syncBuf := "<b>c</b>".toList }
+
+/-- now the stream is `<div><b>a</b><b>b</b>`, `<i>v</i><b>c</b><b>d</b></div>`; before the repair `append` let the
+    boundary's chunks overtake the buffered text: the real stream was `<b>b</b>`, `<i>v</i><div><b>a</b><b>c</b><b>d</b></div>` -/
 theorem C07_eb_inorder_witness :
     ((startStream false [] (compile false .top ebView)).polls [[], [1], [], []]).out
-      = [Poll.item "<b>b</b>".toList, Poll.item "<i>v</i><div><b>a</b><b>c</b><b>d</b></div>".toList, Poll.done, Poll.done]
-    ∧ viewDoc ebView = "<div><b>a</b><b>b</b><i>v</i><b>c</b><b>d</b></div>".toList := by decide
+      = [Poll.item "<div><b>a</b><b>b</b>".toList, Poll.item "<i>v</i><b>c</b><b>d</b></div>".toList, Poll.done, Poll.done]
+    ∧ viewDoc ebView = "<div><b>a</b><b>b</b><i>v</i><b>c</b><b>d</b></div>".toList
+    ∧ (ebParent.append ebChild).bdoc = "<div><b>a</b><b>b</b><i>v</i><b>c</b>".toList
+    ∧ (ebParent.appendOld ebChild).bdoc = "<b>b</b><i>v</i><div><b>a</b><b>c</b>".toList := by decide
 
-/-- the in-order theorem without its hypothesis is false of the code -/
-def C07_in_order_full : Prop :=
-  ∀ (prog : List Op) (done0 : List FId) (sched : List (List FId)),
-    ((startStream false done0 prog).polls sched).out.getLast? = some Poll.done →
-    itemsOf ((startStream false done0 prog).polls sched).out = docOps prog
-
-theorem C07_in_order_full_false : ¬ C07_in_order_full := by
-  intro h
-  have := h (compile false .top ebView) [] [[], [1], [], []] (by decide)
-  revert this
-  decide
-
-/-- F-C07-3. `<div><ErrorBoundary>{Suspend 1}</ErrorBoundary><Suspense fallback=<u>f</u>>{Suspend 2}</Suspense></div>`,
-    out-of-order: both boundaries get the marker id `1-`. -/
+/-- F-C07-3 (repaired by fix-c07-3). `<div><ErrorBoundary>{Suspend 1}</ErrorBoundary><Suspense fallback=<u>f</u>>{Suspend 2}</Suspense></div>`,
+    out-of-order: the boundaries now get the ids `1-` and `2-`; before the repair `append` dropped the sub-builder's
+    counter (`appendOld` keeps the parent's id `[0]` although the child used `[1]`) and both were `1-`. -/
 def ebOooView : View :=
   .seq [.raw "<div>".toList, .eb [.suspend 1 (.raw "<i>v1</i>".toList)],
         .suspense "<u>f</u>".toList none [.suspend 2 (.raw "<em>v2</em>".toList)], .raw "</div>".toList]
 
 theorem C07_eb_ooo_witness :
     ((startStream true [] (compile true .top ebOooView)).polls [[]]).out
-      = [Poll.item "<div><!--s-1-o--><!><!--s-1-c--><!--s-1-o--><u>f</u><!--s-1-c--></div>".toList] := by decide
+      = [Poll.item "<div><!--s-1-o--><!><!--s-1-c--><!--s-2-o--><u>f</u><!--s-2-c--></div>".toList]
+    ∧ ((Builder.new (some [0])).append { (Builder.new (some [1])) with syncBuf := "x".toList }).id = some [1]
+    ∧ ((Builder.new (some [0])).appendOld { (Builder.new (some [1])) with syncBuf := "x".toList }).id = some [0] := by decide
 
-/-- F-C07-4. `<Suspense>{Suspend 1: <p>a</p>{Suspend 2: <i>b</i>}}</Suspense>`, future 1 completing before future 2:
-    the inner content is never emitted (in-order shown; the out-of-order stream drops it in the same way). -/
+/-- F-C07-4 (repaired by fix-c07-4). `<Suspense>{Suspend 1: <p>a</p>{Suspend 2: <i>b</i>}}</Suspense>`: the boundary now
+    waits for both futures in either order; before the repair (`compileOld`) future 1 completing first lost `<i>b</i>`. -/
 def nestedView : View :=
   .suspense "<u>f</u>".toList none [.suspend 1 (.seq [.raw "<p>a</p>".toList, .suspend 2 (.raw "<i>b</i>".toList)])]
 
 theorem C07_nested_suspend_witness :
     ((startStream false [] (compile false .top nestedView)).polls [[], [1], [2], []]).out
-      = [Poll.pending, Poll.item "<p>a</p>".toList, Poll.done, Poll.done]
+      = [Poll.pending, Poll.pending, Poll.item "<p>a</p><i>b</i>".toList, Poll.done]
     ∧ viewDoc nestedView = "<p>a</p><i>b</i>".toList
-    ∧ ((startStream false [] (compile false .top nestedView)).polls [[], [2], [1], []]).out
+    ∧ ((startStream false [] (compileOld false .top nestedView)).polls [[], [1], [2], []]).out
+      = [Poll.pending, Poll.item "<p>a</p>".toList, Poll.done, Poll.done]
+    ∧ ((startStream false [] (compileOld false .top nestedView)).polls [[], [2], [1], []]).out
       = [Poll.pending, Poll.pending, Poll.item "<p>a</p><i>b</i>".toList, Poll.done] := by decide
 
-/-- F-C07-5. `push_fallback(<u>f</u>); push_async_out_of_order(None)` completed before the first poll: the in-place
-    path deletes the fallback; completed after it, the template path keeps it (second conjunct: the first chunk). -/
+/-- F-C07-5 (repaired by fix-c07-5). `push_fallback(<u>f</u>); push_async_out_of_order(None)` completed before the
+    first poll: the in-place path now keeps the fallback (as the template path always did); before the repair the
+    buffer became `before ++ syncs ++ after` (`inPlaceBufOld`), i.e. `<b>x</b>`. -/
 def noneProg : List Op := [.nextId, .fallback "<u>f</u>".toList, .ooo fut1 false [] none, .sync "<b>x</b>".toList]
 
 theorem C07_none_inline_witness :
-    ((startStream true [] noneProg).polls [[1], []]).out = [Poll.item "<b>x</b>".toList, Poll.done]
+    ((startStream true [] noneProg).polls [[1], []]).out = [Poll.item "<u>f</u><b>x</b>".toList, Poll.done]
     ∧ oooDocOps noneProg = "<u>f</u><b>x</b>".toList
+    ∧ inPlaceBufOld [] [] "<b>x</b>".toList = "<b>x</b>".toList
     ∧ ((startStream true [] noneProg).polls [[]]).out = [Poll.item "<!--s-1-o--><u>f</u><!--s-1-c--><b>x</b>".toList] := by
   decide
 
-/-- F-C07-1 (API misuse only). An out-of-order chunk whose resolved list is `[Sync x, Async, Sync y]` — only
+/-- F-C07-1 (API misuse only, not repaired). An out-of-order chunk whose resolved list is `[Sync x, Async, Sync y]` — only
     obtainable by calling `push_async` on the sub-builder of an out-of-order chunk — comes out as `y x`: both
     splice loops iterate `.rev()` while *appending* sync chunks.  Not `OooWf`. -/
 def misuseProg : List Op :=
@@ -317,7 +327,7 @@ def twoView : View :=
   .seq [.raw "<div>".toList, .suspend 1 (.raw "<i>v</i>".toList), .raw "<b>m</b>".toList,
         .suspense "<u>f</u>".toList none [.raw "<p>c</p>".toList, .suspend 2 (.raw "<em>w</em>".toList)], .raw "</div>".toList]
 
-example : viewOk .top twoView = true ∧ inOrdOps (compile false .top twoView) = true
+example : inOrdOps (compile false .top twoView) = true
     ∧ oooWfOps (compile true .top twoView) = true ∧ cleanOps (compile true .top twoView) = true := by decide
 
 example :
@@ -337,7 +347,7 @@ def nestedOoo : View :=
            .suspense "<u>g</u>".toList none [.suspend 2 (.raw "<em>w</em>".toList)]],
         .raw "</div>".toList]
 
-example : viewOk .top nestedOoo = true ∧ oooWfOps (compile true .top nestedOoo) = true
+example : oooWfOps (compile true .top nestedOoo) = true
     ∧ viewDoc nestedOoo = "<div><i>v</i><em>w</em></div>".toList := by decide
 
 example : applyScripts (itemsOf ((startStream true [] (compile true .top nestedOoo)).polls [[], [1], [], [2], [], []]).out)
